@@ -65,6 +65,12 @@ func queryStability(o ReadOut, r Res) {
 	if v.Kind() == reflect.Pointer && v.IsNil() {
 		return
 	}
+	// a value (not a pointer) is copied into addressable storage so that methods with pointer receivers are queried too
+	if v.Kind() != reflect.Pointer {
+		pv := reflect.New(v.Type())
+		pv.Elem().Set(v)
+		v = pv
+	}
 	var unstable []any
 	msg := guarded(func() {
 		idx := readOnlyMethods(v)
@@ -83,7 +89,7 @@ func queryStability(o ReadOut, r Res) {
 	}
 	st := map[string]any{"done": msg == "", "unstable": unstable, "reser": false, "ser2": []int{}}
 	if o.SerOK {
-		if b, ok := reSerialise(o.Val); ok {
+		if b, ok := reSerialise(v.Interface()); ok {
 			st["reser"], st["ser2"] = true, ints(b)
 		}
 	}
